@@ -19,6 +19,18 @@ from ..sim.gen import D
 
 NB = 200
 BOUND = 5.0          # generous bound for effects that take milliseconds
+def _have_ipv6() -> bool:
+    import socket
+    try:
+        s = socket.socket(socket.AF_INET6, socket.SOCK_STREAM)
+        s.bind(("::1", 0))
+        s.close()
+        return True
+    except OSError:
+        return False
+
+
+HAVE_IPV6 = _have_ipv6()
 CMDS = [("num-running", "0"), ("is-locked", "False"), ("pool-size", "inf"), ("num-ended", "0"), ("is-full", "False")]
 
 
@@ -47,6 +59,8 @@ def decode(data: bytes) -> dict:
     case["restart"] = d.p(0.3)
     case["dual"] = d.p(0.2)
     case["restart_early"] = d.p(0.15)
+    if case["transport"] == "tcp" and d.p(0.25):
+        case["host"] = "::1"          # TCP over the IPv6 loopback (peer names are 4-tuples there)
     return case
 
 
@@ -123,7 +137,11 @@ class C19Engine(Engine):
             full = ("TaskPool-" + pname).encode()
             labels.add("transport:" + case["transport"])
             if case["transport"] == "tcp":
-                server: Any = TCPControlServer(pool, host="127.0.0.1", port=0)
+                host = case.get("host", "127.0.0.1")
+                if host == "::1" and not HAVE_IPV6:
+                    host = "127.0.0.1"
+                server: Any = TCPControlServer(pool, host=host, port=0)
+                labels.add("tcp-host:" + host)
             else:
                 server = UnixControlServer(pool, socket_path=path)
             try:
@@ -170,7 +188,7 @@ class C19Engine(Engine):
             async def open_conn():
                 nonlocal port
                 if case["transport"] == "tcp":
-                    return await asyncio.wait_for(asyncio.open_connection("127.0.0.1", port), BOUND)
+                    return await asyncio.wait_for(asyncio.open_connection(host, port), BOUND)
                 return await asyncio.wait_for(asyncio.open_unix_connection(path), BOUND)
 
             async def idle_witness() -> bool:
@@ -571,7 +589,7 @@ class C19Engine(Engine):
         return {"violations": viol, "labels": sorted(labels), "stats": {}, "inconclusive": state["inconclusive"], "error": error}
 
     async def cli_client(self, case: dict, port: Any, path: str, fail: Any, labels: set, full: bytes = b"") -> None:
-        args = ["tcp", "127.0.0.1", str(port)] if case["transport"] == "tcp" else ["unix", path]
+        args = ["tcp", ("::1" if case.get("host") == "::1" and HAVE_IPV6 else "127.0.0.1"), str(port)] if case["transport"] == "tcp" else ["unix", path]
         env = dict(os.environ, PYTHONPATH=SRC, PYTHONDONTWRITEBYTECODE="1", COLUMNS="80")
         how = "exit" if hash(json.dumps(case, sort_keys=True)) % 2 else "eof"
         proc = await asyncio.create_subprocess_exec(
